@@ -35,6 +35,9 @@ OopBoiler == {"Radix4", "Radix3", "RadixN", "Dft"}
 GtW(ch) == IF ch[1].len > ch[2].len THEN ch[2] ELSE ch[1]
 GtH(ch) == IF ch[1].len > ch[2].len THEN ch[1] ELSE ch[2]
 
+\* AVX mixed-radix stages (src/avx/avx_mixed_radix.rs, mixedradix_gen_data!): Rxn over an inner transform
+AvxRadixScr(len, inner) == << len + inner[OOP], IF inner[IP] > len THEN inner[IP] ELSE 0, len + inner[IP] >>
+
 Scr(k, len, ch) ==
     CASE k \in {"Butterfly", "PrimeButterfly"} -> <<0, 0, 0>>
       [] k = "Dft" -> <<len, 0, 0>>
@@ -55,12 +58,10 @@ Scr(k, len, ch) ==
             IN <<inner5.len + extra5, extra5, inner5.len + inner5.scr[IP]>>
       [] k = "BluesteinsAlgorithm" ->
             LET m6 == ch[1].len + ch[1].scr[IP] IN <<m6, m6, m6>>
+      [] k = "AvxRadix" -> AvxRadixScr(len, ch[1].scr)
       [] k \in {"Radix4", "Radix3", "RadixN"} ->
             LET b7 == ch[1].scr[IP] IN
             << IF b7 > len THEN len + b7 ELSE len, IF b7 > len THEN b7 ELSE 0, b7 >>
-
-\* AVX mixed-radix stages (src/avx/avx_mixed_radix.rs, mixedradix_gen_data!): Rxn over an inner transform
-AvxRadixScr(len, inner) == << len + inner[OOP], IF inner[IP] > len THEN inner[IP] ELSE 0, len + inner[IP] >>
 
 \* preconditions of the *Small algorithms on their children (constructor asserts)
 SmallPre(ch) == \A i \in DOMAIN ch : ch[i].scr[OOP] = 0 /\ ch[i].scr[IP] <= ch[i].len
@@ -122,9 +123,17 @@ Calls(k, len, ch, entry, S) ==
               [] entry = OOP -> { Call(ch[1], IP, IF S > 0 THEN S ELSE len, TRUE) }
               [] entry = IM  -> { Call(ch[1], IP, S, TRUE) })
 
+\* AVX mixed-radix stage: column butterflies (no child call), then the row FFTs with the inner transform, then a transpose
+AvxRadixCalls(len, ch, entry, S) ==
+    CASE entry = IP  -> { Call(ch[1], OOP, S - len, S >= len) }                        \* buffer -> Z[..len] out of place, scratch Z[len..]
+      [] entry = OOP -> { Call(ch[1], IP, IF S > 0 THEN S ELSE len, TRUE) }             \* in place on the input; scratch Z, else the output buffer
+      [] entry = IM  -> { Call(ch[1], IP, S - len, S >= len) }                          \* in place on Z[..len]; scratch Z[len..]
+
+AllCalls(k, len, ch, entry, S) == IF k = "AvxRadix" THEN AvxRadixCalls(len, ch, entry, S) ELSE Calls(k, len, ch, entry, S)
+
 Suffices(k, len, ch) ==
     \A entry \in {IP, OOP, IM} :
-        \A call \in Calls(k, len, ch, entry, Scr(k, len, ch)[entry]) :
+        \A call \in AllCalls(k, len, ch, entry, Scr(k, len, ch)[entry]) :
             call.ok /\ call.given >= call.c.scr[call.e]
 
 \* a longer caller scratch changes nothing: the helpers trim it to the advertised length first (array_utils.rs)
